@@ -9,16 +9,16 @@ import fuzzdrv
 
 WIDTH = [1, 1, 2, 2, 4, 4, 8, 8]
 TNAME = ["signed char", "unsigned char", "short", "unsigned short", "int", "unsigned int", "long", "unsigned long"]
-MNAME = ["sum conservation (add/sub/inc/dec/add_return/sub_return)", "add_return(+1) results distinct", "xchg token conservation", "cmpxchg-loop increments", "and/or bit ownership"]
+MNAME = ["sum conservation (add/sub/inc/dec/add_return/sub_return)", "add_return(+1) results distinct", "xchg token conservation", "cmpxchg-loop increments", "and/or bit ownership", "test-and-set lock built from cmpxchg protecting a plain counter"]
 RULE = ("Three campaigns. (E2, inputs) libFuzzer decodes bytes into (operand type in {signed,unsigned} x {1,2,4,8} bytes, one of 14 operations - set/read/load/store/xchg/cmpxchg/"
         "add_return/sub_return/add/sub/inc/dec/and/or -, an aligned position inside an 8-byte word surrounded by guard words, old value and operands from a sign/width boundary pool "
         "or raw, operands passed with the operand type, as (unsigned) long, as unsigned int or as int, old value present in memory beforehand or written by a plain C assignment right before the call) and compares the returned value (sign-/zero-extended per type), the stored value truncated to the "
         "width and every neighbouring byte with a plain-C reference, for eight builds of the real macros: {x86 asm, compiler builtins} x {C, C++} x {clang, gcc}; in addition the full "
         "grid type x operation x position x passing style x (old, a, b) in the 14-value boundary pool is enumerated exhaustively. (E3a, schedules on real hardware) Hypothesis generates "
         "2-8 pinned threads, an iteration count and a packing of 1-6 operands of mixed widths into one 8-byte word, each hammered by all threads with one discipline: sum conservation "
-        "over add/sub/inc/dec/add_return/sub_return, all add_return(+1) results distinct and consecutive, xchg token conservation, cmpxchg-loop increments, and/or bit ownership; "
+        "over add/sub/inc/dec/add_return/sub_return, all add_return(+1) results distinct and consecutive, xchg token conservation, cmpxchg-loop increments, and/or bit ownership, a test-and-set lock built from cmpxchg protecting a plain counter; "
         "guard words and unowned bytes must not change; four builds. (E3b) store-buffer litmus x=1; RMW(z); r=y || y=1; RMW(z'); r'=x for xchg, successful cmpxchg, add_return, "
-        "sub_return (on long and on int operands): r=r'=0 must never occur, while the control without the RMW must show it (else the litmus is reported inconclusive). Non-trivial: E2 - the operation wrapped, "
+        "sub_return (on long and on int operands, including add_return/sub_return of 0, a successful cmpxchg that stores the same value and an xchg of the value already present): r=r'=0 must never occur, while the control without the RMW must show it (else the litmus is reported inconclusive). Non-trivial: E2 - the operation wrapped, "
         "touched the sign bit or got an operand wider than the type (distinct decoded case); E3a - at least two operands shared the word, thread execution intervals overlapped and "
         "interference was observed (failed CAS, interleaved add_return results or foreign tokens) (distinct case text).")
 ASSUMPTIONS = ["E3 runs on this machine's x86-64 cores: atomicity and barrier behaviour are observed, not proven; a clean run bounds nothing beyond the executions that happened",
@@ -36,7 +36,7 @@ def gen_case(draw, st, tier):
         if w == 0:
             off += 1; continue
         t = {1: 0, 2: 2, 4: 4, 8: 6}[w] + draw(st.integers(0, 1))
-        modes = [0, 1, 2, 3] + ([4] if nth <= 8 * w else [])
+        modes = [0, 1, 2, 3, 5] + ([4] if nth <= 8 * w else [])
         locs.append("%d:%d:%d" % (t, off, draw(st.sampled_from(modes))))
         off += w
         if len(locs) >= 6:
@@ -103,6 +103,7 @@ def e3_hammer(tier, seed, bins):
         msgs = once(case)
         if msgs:
             last["case"] = case; last["msgs"] = msgs
+            last.setdefault("all", []).append((case, msgs))
             raise AssertionError(msgs[0])
     try:
         prop()
@@ -111,24 +112,31 @@ def e3_hammer(tier, seed, bins):
     except Exception as e:
         stats["classes"]["generator_error " + repr(e)[:80]] = 1
     if "case" in last:
-        # a violation must reproduce (concurrency: 2 of 5 re-runs)
-        rep = sum(1 for _ in range(5) if once(last["case"]))
-        if rep >= 2:
-            stats["violations"].append({"case": last["case"], "msg": "; ".join(last["msgs"])[:900], "reproduced": rep})
-        else:
+        # a violation must reproduce (concurrency: 2 of 5 re-runs). Hypothesis' shrunk example (fewer threads / iterations) may fail too rarely to
+        # reproduce; then fall back to the failing cases seen earlier, the first (unshrunk) one first.
+        cands = [(last["case"], last["msgs"])] + last.get("all", [])[:1] + last.get("all", [])[-4:-1]
+        seen, done = set(), False
+        for case, msgs in cands:
+            if case in seen or done:
+                continue
+            seen.add(case)
+            rep = sum(1 for _ in range(5) if once(case))
+            if rep >= 2:
+                stats["violations"].append({"case": case, "msg": "; ".join(msgs)[:900], "reproduced": rep}); done = True
+        if not done:
             stats["classes"]["nonrepro"] = stats["classes"].get("nonrepro", 0) + 1
     return stats
 
 
 def litmus(tier, bins):
-    rounds = {"quick": 300000, "thorough": 3000000}[tier]
+    rounds = {"quick": 150000, "thorough": 3000000}[tier]
     res, viol, incon = [], [], 0
     for name, b in bins.items():
         rc, out = run_native(b, "litmus none %d" % rounds, 300)
         m = re.search(r"both_zero=(\d+)", out)
         control = int(m.group(1)) if m else -1
         row = {"build": name, "rounds": rounds, "control_both_zero": control}
-        for kind in ("xchg", "cmpxchg", "add_return", "sub_return", "xchg32", "cmpxchg32", "add_return32", "sub_return32"):
+        for kind in ("xchg", "cmpxchg", "add_return", "sub_return", "xchg32", "cmpxchg32", "add_return32", "sub_return32", "add_return_zero", "sub_return_zero", "add_return32_zero", "cmpxchg_same", "xchg_same"):
             rc, out = run_native(b, "litmus %s %d" % (kind, rounds), 300)
             m = re.search(r"both_zero=(\d+)", out)
             n = int(m.group(1)) if m else -1
@@ -167,7 +175,7 @@ def run_c20(tier, seed):
     for path, msg in viol_lines[:4]:
         print("VIOLATION property=C20 replay=%s" % path); print("  " + msg[:600])
     ev = {"property_id": "C20", "tier": tier, "seed": int(seed), "level": "exploration",
-          "coverage": {"evaluations": res["evaluations"] + grid + e3["evaluations"] + sum(9 for _ in lit),
+          "coverage": {"evaluations": res["evaluations"] + grid + e3["evaluations"] + sum(14 for _ in lit),
                        "distinct_nontrivial": len(res["nontrivial"]) + len(e3["nontrivial"]), "rule": RULE,
                        "samples": res["samples"][:2] + e3["samples"][:2],
                        "e2_fuzz": {"evaluations": res["evaluations"], "distinct_nontrivial": len(res["nontrivial"]), "classes": res["classes"], "builds_compared": 8,
